@@ -379,6 +379,8 @@ class SMC(Sampler):
             self._quantiles = np.concatenate((np.full((self.state['round']), None), quantiles))
         else:
             thresholds = np.concatenate((np.full((self.state['round']), None), thresholds))
+            # Quantiles of an earlier estimation do not apply to the given thresholds
+            self._quantiles = None
 
         self.objective.update(
             dict(
